@@ -312,7 +312,9 @@ func (e *kvElection) verifyLeadershipAfterReconnect() {
 	// Resume heartbeat loop if it was stopped
 	// Note: Heartbeat loop should resume automatically, but we verify
 	// Update status to Connected after successful verification
-	if e.connectionMonitor != nil {
+	// Only if nothing newer happened: a disconnect notification that arrived while
+	// the verification was running must not be overwritten (its grace timer is armed).
+	if e.connectionMonitor != nil && e.connectionMonitor.Status() == ConnectionStatusReconnected {
 		e.connectionMonitor.SetStatus(ConnectionStatusConnected)
 		// Update connection status metric
 		if e.cfg.Metrics != nil {
